@@ -7,6 +7,7 @@
 -/
 import PyIkev2.Model.Mirror
 import PyIkev2.Props.C04
+import PyIkev2.Proofs.TwoEndsCreate
 
 namespace PyIkev2.Props.C01
 open PyIkev2 PyIkev2.Impl
@@ -70,5 +71,15 @@ theorem c01_ike_keys_agree (k : Keyring) (p g a b : Nat) :
     (g ^ a % p) ^ b % p = (g ^ b % p) ^ a % p := by
   have h := C04.c04_role_keys k
   exact ⟨by rw [h.1, h.2.2.2], by rw [h.2.2.1, h.2.1], C04.c04_modp_agreement p g a b⟩
+
+/-! ### both ends (two ends of the handler model, `Proofs/TwoEnds*.lean`) -/
+
+/-- after any sequence of CHILD_SA creations, rekeys and deletions started by either end (one exchange at a time, no handler raising):
+    the CHILD_SAs of the two ends are mirror images — for every record at one end there is one at the other with inbound and outbound
+    SPI exchanged and the same protocol, and nothing else (as multisets) -/
+theorem c01_concrete_child_sas_of_the_two_ends_are_mirror_images (now fuel : Nat) (ops : List ChildOp) (a b a' b' : HSt)
+    (h : Agree a b) (hx : opRun now fuel (a, b) ops = some (a', b')) :
+    (a'.me.ext.kids.map Child.view).Perm (b'.me.ext.kids.map Child.peerView) :=
+  (Agree.opRun now fuel ops a b a' b' h hx).mirror
 
 end PyIkev2.Props.C01
